@@ -16,7 +16,14 @@ from __future__ import annotations
 import types
 
 ATOMIC = (int, float, str, bytes, bool, type(None), complex, type(Ellipsis), type(NotImplemented))
-IDENTITY_LEAVES = (type, types.FunctionType, types.BuiltinFunctionType, types.ModuleType, types.MethodType, types.LambdaType, staticmethod, classmethod, property)
+import typing as _typing
+
+IDENTITY_LEAVES = (
+    type, types.FunctionType, types.BuiltinFunctionType, types.ModuleType, types.MethodType, types.LambdaType,
+    staticmethod, classmethod, property,
+    # typing aliases such as KeyedList[KLeaf, str] (stored by keyed containers as their type): immutable by convention
+    type(_typing.List[int]), types.GenericAlias, type(_typing.Union[int, str]), _typing.TypeVar,
+)
 
 SKIP_DICT_KEYS = ()
 
